@@ -1,6 +1,7 @@
 package props
 
 import (
+	"golibcheck/internal/paths"
 	"fmt"
 	"go/ast"
 	"go/token"
@@ -145,6 +146,169 @@ func decodeInPlace(p *core.Program, x *wire.Extractor, r *core.Report, rule stri
 			}
 			return true
 		})
+		// (c) an element that is read inside a decoding loop and then skipped: every path through the
+		// loop body that reads a value into a local and goes on to the next iteration hands that local
+		// on (as an argument of a call, or on the right of an assignment) before it does
+		probs = append(probs, droppedElements(p, x, fi)...)
 		fileProbs(r, rule, core.FuncName(fi.Obj), p.Pos(fi.Decl.Pos()), probs, "decoded elements are stored into the container itself")
 	}
+}
+
+// droppedElements: see (c) in decodeInPlace.
+func droppedElements(p *core.Program, x *wire.Extractor, fi *core.FuncInfo) []string {
+	info := fi.Pkg.TypesInfo
+	var probs []string
+	isStream := func(e ast.Expr) bool {
+		tv, ok := info.Types[e]
+		return ok && x.IsStream(tv.Type)
+	}
+	readsStream := func(call *ast.CallExpr) bool {
+		if sel, ok := call.Fun.(*ast.SelectorExpr); ok && isStream(sel.X) {
+			return true
+		}
+		for _, a := range call.Args {
+			if isStream(a) {
+				return true
+			}
+		}
+		return false
+	}
+	ast.Inspect(fi.Decl.Body, func(n ast.Node) bool {
+		var body *ast.BlockStmt
+		switch v := n.(type) {
+		case *ast.ForStmt:
+			body = v.Body
+		case *ast.RangeStmt:
+			body = v.Body
+		}
+		if body == nil {
+			return true
+		}
+		locals := map[types.Object]string{}
+		okVars := map[types.Object]string{} // comma-ok of a type assertion on a read local -> that local
+		ps, over := paths.Enumerate(body, paths.Config{Info: info,
+			Cond: func(c ast.Expr, v bool) *paths.Event {
+				// absent (nil) or foreign-typed elements may be skipped: x == nil, !ok of x.(T)
+				c = ast.Unparen(c)
+				if be, ok := c.(*ast.BinaryExpr); ok && (be.Op == token.EQL || be.Op == token.NEQ) {
+					for _, pr := range [][2]ast.Expr{{be.X, be.Y}, {be.Y, be.X}} {
+						if nid, ok := ast.Unparen(pr[1]).(*ast.Ident); ok && nid.Name == "nil" {
+							if id, ok := ast.Unparen(pr[0]).(*ast.Ident); ok {
+								if nm, isRead := locals[info.ObjectOf(id)]; isRead && (be.Op == token.EQL) == v {
+									return &paths.Event{Kind: "ABSENT", Arg: nm, Pos: c.Pos()}
+								}
+							}
+						}
+					}
+				}
+				if id, ok := c.(*ast.Ident); ok {
+					if nm, isOk := okVars[info.ObjectOf(id)]; isOk && !v {
+						return &paths.Event{Kind: "ABSENT", Arg: nm, Pos: c.Pos()}
+					}
+				}
+				return nil
+			},
+			Classify: func(m ast.Node) []paths.Event {
+				var out []paths.Event
+				mention := func(e ast.Node, kind string) {
+					ast.Inspect(e, func(k ast.Node) bool {
+						if id, ok := k.(*ast.Ident); ok {
+							if o := info.ObjectOf(id); o != nil {
+								if nm, isRead := locals[o]; isRead {
+									out = append(out, paths.Event{Kind: kind, Arg: nm, Pos: id.Pos()})
+								}
+							}
+						}
+						return true
+					})
+				}
+				switch v := m.(type) {
+				case *ast.AssignStmt:
+					// p, ok := x.(T) on a read local: p is x under another type, ok says whether it is a T
+					if len(v.Rhs) == 1 && len(v.Lhs) <= 2 {
+						if ta, isTA := ast.Unparen(v.Rhs[0]).(*ast.TypeAssertExpr); isTA {
+							if xid, ok := ast.Unparen(ta.X).(*ast.Ident); ok {
+								if nm, isRead := locals[info.ObjectOf(xid)]; isRead {
+									if lid, ok := v.Lhs[0].(*ast.Ident); ok && lid.Name != "_" {
+										if o := info.ObjectOf(lid); o != nil {
+											locals[o] = nm
+										}
+									}
+									if len(v.Lhs) == 2 {
+										if oid, ok := v.Lhs[1].(*ast.Ident); ok && oid.Name != "_" {
+											if o := info.ObjectOf(oid); o != nil {
+												okVars[o] = nm
+											}
+										}
+									}
+									return out
+								}
+							}
+						}
+					}
+					// stores first (the right-hand sides), then the definitions this statement makes
+					for i, l := range v.Lhs {
+						if lid, ok := l.(*ast.Ident); ok && lid.Name == "_" {
+							continue
+						}
+						if i < len(v.Rhs) {
+							if c, isCall := ast.Unparen(v.Rhs[i]).(*ast.CallExpr); isCall && readsStream(c) {
+								for _, a := range c.Args {
+									mention(a, "STORE")
+								}
+								continue
+							}
+							mention(v.Rhs[i], "STORE")
+						}
+					}
+					for i, l := range v.Lhs {
+						lid, ok := l.(*ast.Ident)
+						if !ok || lid.Name == "_" || i >= len(v.Rhs) || len(v.Lhs) != len(v.Rhs) {
+							continue
+						}
+						if c, isCall := ast.Unparen(stripConvs(info, v.Rhs[i])).(*ast.CallExpr); isCall && readsStream(c) {
+							if o := info.ObjectOf(lid); o != nil && !isStream(lid) {
+								locals[o] = lid.Name
+								out = append(out, paths.Event{Kind: "READ", Arg: lid.Name, Pos: lid.Pos()})
+							}
+						}
+					}
+				case *ast.ExprStmt:
+					if c, ok := v.X.(*ast.CallExpr); ok {
+						for _, a := range c.Args {
+							mention(a, "STORE")
+						}
+					}
+				case *ast.ReturnStmt:
+					for _, e := range v.Results {
+						mention(e, "STORE")
+					}
+				}
+				return out
+			}})
+		if over {
+			return true
+		}
+		for _, pa := range ps {
+			if len(pa) > 0 && (pa[len(pa)-1].Kind == "PANIC") {
+				continue
+			}
+			for i, e := range pa {
+				if e.Kind != "READ" {
+					continue
+				}
+				used := false
+				for _, f := range pa[i+1:] {
+					if (f.Kind == "STORE" || f.Kind == "ABSENT") && f.Arg == e.Arg {
+						used = true
+					}
+				}
+				if !used {
+					probs = append(probs, fmt.Sprintf("%s: `%s` is read from the stream inside the decoding loop and dropped on a path that goes on to the next element: the decoded container misses it", p.Pos(e.Pos), e.Arg))
+				}
+			}
+		}
+		return true
+	})
+	return uniq(probs)
 }
